@@ -14,7 +14,8 @@ def _offset_ids(line, off):
 
 
 def c17_pair(rng, name):
-    """(A, B): A = contexts K plus input-disjoint contexts D; B = K alone; same input script (D's inputs become noise in B)"""
+    """(A, B, C): A = contexts K plus input-disjoint contexts D; B = K alone with the same input script (D's inputs become activity
+    on inputs nobody binds); C = K alone without that activity"""
     kprof = Profile(ctx_pool=[0, 2, 4], n_ctx=(1, 2), keys=[0, 1], mask_choices=[1, 2, 3], mbtns=[0], pads=(1, 1), pad_ctx_p=1.0,
                     input_kinds=["key"] * 5 + ["mbtn", "motion", "padbtn", "padaxis"], actions=list(range(16)),
                     lifecycle_p=0.08, noise_keys=[4, 5], modmask_p=0.3, n_entities=(1, 2))
@@ -49,7 +50,9 @@ def c17_pair(rng, name):
         opsB.append(l)
     A = [f"scenario {name}A"] + kcfg + dcfg + opsA + ["endscenario"]
     B = [f"scenario {name}B"] + kcfg + opsB + ["endscenario"]
-    return A, B
+    # C: B without the activity on inputs nobody binds (the second gamepad still exists, but is never touched)
+    C = [f"scenario {name}C"] + kcfg + ["pad+ 1"] + kops + ["endscenario"]
+    return A, B, C
 
 
 def k_projection(trace):
@@ -106,14 +109,19 @@ def c17_run(prop, cfg, seed, tier, workdir):
             violations.append(("nondeterministic-" + nm, "# two runs of the real crate on the same scenario differ\n" + "\n".join(sc) + "\n"))
         if any(l.startswith("dlv ") for l in impl[nm]):
             nontriv += 1
-    for A, B in pairs:
-        a, b = A[0].split()[1], B[0].split()[1]
+    for A, B, C in pairs:
+        a, b, c = A[0].split()[1], B[0].split()[1], C[0].split()[1]
         pa, pb = k_projection(runner.canonicalise(A, impl[a])), k_projection(runner.canonicalise(B, impl[b]))
+        pc = k_projection(runner.canonicalise(C, impl[c]))
         stats["pair_projection_lines"] += len(pa)
         d = runner.first_diff(pa, pb)
         if d is not None and len(violations) < 3:
             violations.append((f"interference-{a}", "# the kept contexts behave differently with / without input-disjoint contexts\n"
                                f"# first difference (index, with D, without D): {d!r}\n" + "\n".join(A) + "\n" + "\n".join(B) + "\n"))
+        d = runner.first_diff(pb, pc)
+        if d is not None and len(violations) < 3:
+            violations.append((f"unbound-activity-{b}", "# the contexts behave differently with / without activity on inputs nobody binds\n"
+                               f"# first difference (index, with the activity, without): {d!r}\n" + "\n".join(B) + "\n" + "\n".join(C) + "\n"))
     # a difference from the model is not by itself a failing input for C17 (that is what the pair / re-run oracles find)
     return dict(scenarios=scenarios, impl=impl, model=model, mismatches=[], upstream=mismatches, outside=outside, evaluations=len(scenarios) * 2,
                 distinct=len(scenarios), nontrivial=nontriv, stats=stats, n_corpus=len(corpus), violations=violations,
